@@ -150,13 +150,13 @@ Theorem C06_sch_property_sound : forall g n s k sec m v,
 Proof. exact sch_property_sound. Qed.
 Example C06_sch_property_always_unsound :
   sch_accepts 3 ScAlways (XObj false false [("k", XScalar false false (SNum "1"))]) = true /\
-  sch_property sch_fuel "k" ScAlways = ScNever /\
-  forall n, sch_accepts n (sch_property sch_fuel "k" ScAlways) (XScalar false false (SNum "1")) = false.
+  sch_property (sch_depth ScAlways) "k" ScAlways = ScNever /\
+  forall n, sch_accepts n (sch_property (sch_depth ScAlways) "k" ScAlways) (XScalar false false (SNum "1")) = false.
 Proof. exact sch_property_always_unsound. Qed.
 Example C06_sch_property_open_record_unsound :
   sch_accepts 3 (ScObject [] None) (XObj false false [("k", XScalar false false (SNum "1"))]) = true /\
-  sch_property sch_fuel "k" (ScObject [] None) = ScNever /\
-  forall n, sch_accepts n (sch_property sch_fuel "k" (ScObject [] None)) (XScalar false false (SNum "1")) = false.
+  sch_property (sch_depth (ScObject [] None)) "k" (ScObject [] None) = ScNever /\
+  forall n, sch_accepts n (sch_property (sch_depth (ScObject [] None)) "k" (ScObject [] None)) (XScalar false false (SNum "1")) = false.
 Proof. exact sch_property_open_record_unsound. Qed.
 
 (* Item *)
@@ -166,8 +166,8 @@ Theorem C06_sch_item_sound : forall g n s i sec l v,
 Proof. exact sch_item_sound. Qed.
 Example C06_sch_item_open_array_unsound :
   sch_accepts 3 (ScArray [] None) (XArr false false [XScalar false false (SNum "1")]) = true /\
-  sch_item sch_fuel 0 (ScArray [] None) = ScNever /\
-  forall n, sch_accepts n (sch_item sch_fuel 0 (ScArray [] None)) (XScalar false false (SNum "1")) = false.
+  sch_item (sch_depth (ScArray [] None)) 0 (ScArray [] None) = ScNever /\
+  forall n, sch_accepts n (sch_item (sch_depth (ScArray [] None)) 0 (ScArray [] None)) (XScalar false false (SNum "1")) = false.
 Proof. exact sch_item_open_array_unsound. Qed.
 
 (* mergedSchema: sound when the top schema describes the top value tightly (the canonical schema of a known value);
